@@ -42,13 +42,20 @@ fn norm_pts(ps: &[P]) -> Vec<P> {
 
 /// exact signed shoelace sum when every coordinate is an integer of magnitude <= 2^20
 pub fn exact_area2(ps: &[P]) -> Option<i128> {
+    // coordinates that are integer multiples of 2^-40 below 2^20 in magnitude: the doubled area is
+    // an exact integer multiple of 2^-80 (only its sign and zero-ness are used)
     let mut xs = vec![];
+    let scale = (1u64 << 40) as f64;
     for p in ps {
         let (x, y) = (f(p.x), f(p.y));
-        if !(x.is_finite() && y.is_finite()) || x.fract() != 0.0 || y.fract() != 0.0 || x.abs() > 1048576.0 || y.abs() > 1048576.0 {
+        if !(x.is_finite() && y.is_finite()) || x.abs() > 1048576.0 || y.abs() > 1048576.0 {
             return None;
         }
-        xs.push((x as i128, y as i128));
+        let (sx, sy) = (x * scale, y * scale);
+        if sx.fract() != 0.0 || sy.fract() != 0.0 {
+            return None;
+        }
+        xs.push((sx as i128, sy as i128));
     }
     let mut s = 0i128;
     for w in xs.windows(2) {
@@ -791,6 +798,10 @@ pub fn oracle_c16(c: &Ctor) -> Verdict {
         if has_nan {
             return Ok(()); // closure is not claimed for NaN coordinates
         }
+        if input.is_empty() {
+            // outside the property's quantifier (vertex counts >= 1): only "no vertex is invented"
+            return if out.is_empty() { Ok(()) } else { Err(("vertices-changed".into(), format!("ring {} was given no vertex and holds {}", i, out.len()))) };
+        }
         if out.is_empty() || !peq(d, &out[0], &out[out.len() - 1]) {
             return Err(("not-closed".into(), format!("ring {} is not closed", i)));
         }
@@ -842,6 +853,12 @@ pub fn oracle_c16(c: &Ctor) -> Verdict {
                         let has_nan = input.iter().any(|p| [p.x, p.y, p.z, p.m].iter().any(|v| f(*v).is_nan()));
                         if has_nan {
                             continue;
+                        }
+                        if input.is_empty() {
+                            if out.is_empty() {
+                                continue;
+                            }
+                            return Err(("patch-vertices-changed".into(), format!("ring patch {} was given no vertex and holds {}", i, out.len())));
                         }
                         if out.is_empty() || !peq(d, &out[0], &out[out.len() - 1]) {
                             return Err(("patch-not-closed".into(), format!("ring patch {} is not closed", i)));
